@@ -716,10 +716,202 @@ func c12FirstIfIn(n ast.Node) *ast.IfStmt {
 	return found
 }
 
+
+// c12Nest emits the constructs that enclose the call of the callback inside goName, outermost first, as a typed
+// list: go statement, threading.GoSafe, threading.RunSafe, TaskRunner.Schedule, loop.
+func (e *emitter) c12Nest(s *source, rel, goName, lean, target string) {
+	fd := s.findFunc(rel, goName)
+	if fd == nil {
+		e.errors = append(e.errors, "function "+goName+" not found in "+rel)
+		e.printf("def %s : List Nest := []\n\n", lean)
+		return
+	}
+	var stack []ast.Node
+	var paths [][]string
+	ast.Inspect(fd.Body, func(n ast.Node) bool {
+		if n == nil {
+			stack = stack[:len(stack)-1]
+			return true
+		}
+		if call, ok := n.(*ast.CallExpr); ok && s.src(call.Fun) == target {
+			var path []string
+			for _, a := range stack {
+				switch x := a.(type) {
+				case *ast.GoStmt:
+					path = append(path, ".go")
+				case *ast.ForStmt, *ast.RangeStmt:
+					path = append(path, ".loop")
+				case *ast.CallExpr:
+					if _, lit := x.Fun.(*ast.FuncLit); lit {
+						continue
+					}
+					f := s.src(x.Fun)
+					switch {
+					case strings.Contains(f, "GoSafe"):
+						path = append(path, ".goSafe")
+					case strings.Contains(f, "RunSafe"):
+						path = append(path, ".runSafe")
+					case strings.HasSuffix(f, ".Schedule"):
+						path = append(path, ".schedule")
+					}
+				}
+			}
+			paths = append(paths, path)
+		}
+		stack = append(stack, n)
+		return true
+	})
+	if len(paths) != 1 {
+		e.errors = append(e.errors, fmt.Sprintf("%s: expected exactly one call of %s, found %d", goName, target, len(paths)))
+		e.printf("def %s : List Nest := []\n\n", lean)
+		return
+	}
+	e.printf("/-- what encloses the call of `%s` in `%s`, outermost first -/\ndef %s : List Nest := [%s]\n\n", target, goName, lean, strings.Join(paths[0], ", "))
+}
+
+
+// c12LitFields flattens a composite literal (nested literals included) into (field, value source) pairs; any other
+// expression is one pair with an empty field name.
+func (s *source) c12LitFields(x ast.Expr, out *[]string) {
+	if lit, ok := x.(*ast.CompositeLit); ok {
+		for _, el := range lit.Elts {
+			if kv, ok := el.(*ast.KeyValueExpr); ok {
+				if _, nested := kv.Value.(*ast.CompositeLit); nested {
+					s.c12LitFields(kv.Value, out)
+				} else {
+					*out = append(*out, fmt.Sprintf("(%q, %q)", s.src(kv.Key), s.src(kv.Value)))
+				}
+			} else {
+				*out = append(*out, fmt.Sprintf("(%q, %q)", "", s.src(el)))
+			}
+		}
+		return
+	}
+	*out = append(*out, fmt.Sprintf("(%q, %q)", "", s.src(x)))
+}
+
+func c12FindSelect(n ast.Node) *ast.SelectStmt {
+	var found *ast.SelectStmt
+	ast.Inspect(n, func(x ast.Node) bool {
+		if sel, ok := x.(*ast.SelectStmt); ok && found == nil {
+			found = sel
+		}
+		return found == nil
+	})
+	return found
+}
+
+func (s *source) c12Returns(body []ast.Stmt) string {
+	for _, st := range body {
+		if r, ok := st.(*ast.ReturnStmt); ok {
+			var parts []string
+			for _, x := range r.Results {
+				parts = append(parts, s.src(x))
+			}
+			return strings.Join(parts, ", ")
+		}
+	}
+	return "(no return)"
+}
+
+// c12ApiTables: the select of every public method as a typed row (channel sent on, the fields of the request, what is
+// returned once the loop has it, what is returned when stopChannel is closed), and the dispatch table of run (channel
+// received from, bound variable, handler, its arguments, does the clause end the loop).
+func (e *emitter) c12ApiTables(s *source) {
+	const f = "core/collection/timingwheel.go"
+	e.printf("structure ApiSend where\n  method : String\n  chan : String\n  fields : List (String × String)\n  onSent : String\n  closedChan : String\n  onClosed : String\n  deriving Repr, DecidableEq\n\n")
+	e.printf("structure Dispatch where\n  chan : String\n  bound : String\n  handler : String\n  args : List String\n  endsLoop : Bool\n  deriving Repr, DecidableEq\n\n")
+	var rows []string
+	for _, m := range []string{"SetTimer", "MoveTimer", "RemoveTimer", "Drain"} {
+		fd := s.findFunc(f, "TimingWheel."+m)
+		if fd == nil {
+			e.errors = append(e.errors, m+" not found")
+			continue
+		}
+		sel := c12FindSelect(fd.Body)
+		if sel == nil {
+			e.errors = append(e.errors, m+": no select")
+			continue
+		}
+		ch, onSent, closedChan, onClosed := "", "", "", ""
+		var fields []string
+		for _, c := range sel.Body.List {
+			cc := c.(*ast.CommClause)
+			switch x := cc.Comm.(type) {
+			case *ast.SendStmt:
+				ch = strings.TrimPrefix(s.src(x.Chan), "tw.")
+				s.c12LitFields(x.Value, &fields)
+				onSent = s.c12Returns(cc.Body)
+			case *ast.ExprStmt:
+				if u, ok := x.X.(*ast.UnaryExpr); ok && u.Op == token.ARROW {
+					closedChan = strings.TrimPrefix(s.src(u.X), "tw.")
+					onClosed = s.c12Returns(cc.Body)
+				}
+			default:
+				e.errors = append(e.errors, m+": unexpected select clause")
+			}
+		}
+		rows = append(rows, fmt.Sprintf("⟨%q, %q, [%s], %q, %q, %q⟩", m, ch, strings.Join(fields, ", "), onSent, closedChan, onClosed))
+	}
+	e.printf("/-- the select of every public method of the wheel -/\ndef apiSends : List ApiSend :=\n  [%s]\n\n", strings.Join(rows, ",\n   "))
+	rows = nil
+	if fd := s.findFunc(f, "TimingWheel.run"); fd != nil {
+		if sel := c12FindSelect(fd.Body); sel != nil {
+			for _, c := range sel.Body.List {
+				cc := c.(*ast.CommClause)
+				ch, bound := "", ""
+				switch x := cc.Comm.(type) {
+				case *ast.ExprStmt:
+					if u, ok := x.X.(*ast.UnaryExpr); ok && u.Op == token.ARROW {
+						ch = strings.TrimPrefix(s.src(u.X), "tw.")
+					}
+				case *ast.AssignStmt:
+					if len(x.Lhs) == 1 && len(x.Rhs) == 1 {
+						bound = s.src(x.Lhs[0])
+						if u, ok := x.Rhs[0].(*ast.UnaryExpr); ok && u.Op == token.ARROW {
+							ch = strings.TrimPrefix(s.src(u.X), "tw.")
+						}
+					}
+				}
+				handler, ends := "", false
+				var args []string
+				for _, st := range cc.Body {
+					switch x := st.(type) {
+					case *ast.ExprStmt:
+						if call, ok := x.X.(*ast.CallExpr); ok && handler == "" {
+							handler = strings.TrimPrefix(s.src(call.Fun), "tw.")
+							for _, a := range call.Args {
+								args = append(args, fmt.Sprintf("%q", s.src(a)))
+							}
+						} else {
+							handler += "; " + s.src(st)
+						}
+					case *ast.ReturnStmt:
+						ends = true
+					default:
+						handler += "; " + s.src(st)
+					}
+				}
+				rows = append(rows, fmt.Sprintf("⟨%q, %q, %q, [%s], %v⟩", ch, bound, handler, strings.Join(args, ", "), ends))
+			}
+		} else {
+			e.errors = append(e.errors, "run: no select")
+		}
+	} else {
+		e.errors = append(e.errors, "run not found")
+	}
+	e.printf("/-- the dispatch table of `run` -/\ndef runDispatch : List Dispatch :=\n  [%s]\n\n", strings.Join(rows, ",\n   "))
+}
+
 func (e *emitter) c12Round5(s *source, t *translator) {
 	const ca = "core/collection/cache.go"
 	const cl = "core/stores/cache/cleaner.go"
 	e.printf("structure WheelCall where\n  fn : String\n  method : String\n  args : List String\n  detached : Bool\n  deferred : Bool\n  deriving Repr, DecidableEq\n\n")
+	e.printf("inductive Nest where\n  | go | goSafe | runSafe | schedule | loop\n  deriving Repr, DecidableEq\n\n")
+	e.c12Nest(s, "core/collection/timingwheel.go", "TimingWheel.runTasks", "runTasksNest", "tw.execute")
+	e.c12Nest(s, "core/collection/timingwheel.go", "TimingWheel.drainAll", "drainNest", "fn")
+	e.c12Nest(s, "core/collection/timingwheel.go", "TimingWheel.moveTask", "moveImmediateNest", "tw.execute")
+	e.c12ApiTables(s)
 	e.c12WheelCalls(s, ca, "cacheWheelCalls")
 	e.c12WheelCalls(s, cl, "cleanerWheelCalls")
 	e.c12ForwardArgs(s, ca, "Cache.Set", "SetWithExpire", "cacheSetForward")
